@@ -43,6 +43,10 @@ def run(ctx):
         L = int(a.L)
         beta = float(a.order.ordering_cone.beta)
         st["L_points"] += 1
+        # the sampling noise the algorithm will actually see has the CONFIGURED variance (L is computed from it)
+        Lc = np.array(a.problem.noise_cholesky, dtype=float)
+        if not np.allclose(Lc @ Lc.T, nv * np.eye(len(Lc)), rtol=1e-12, atol=0):
+            viol.append({"signature": "naive-sampling-noise-not-configured-variance", "message": f"NaiveElimination(noise_var={nv}): the problem it samples from draws noise with covariance {(Lc @ Lc.T).tolist()} instead of {nv} * I, while L = {L} is computed for variance {nv}", "replay": {"kind": "noisefactor", "noise_var": nv}})
         # formula value must lie in (L-1, L]: validated below by interval on the regenerated expression
         cases.append(("naive_L_real", (nv, delta, K, 2, eps, beta), L))
         # two-design instance with gap just above eps: failure probability lower bound (one facet)
